@@ -91,8 +91,9 @@ def counted(ctx, r):
 def gen_cfg(ctx):
     """quick: every table of <= 1 entry in every variant (namespace runner + container x 4 option
     sets), + 6 drawn 2-entry and 18 drawn 3-entry tables, each with the namespace runner and one
-    drawn container variant; thorough: every table of <= 2 entries in every variant + 420 drawn
-    3-entry tables.  TLC draws (Randomization, -seed)."""
+    drawn container variant; thorough: every table of <= 1 entry in every variant, all 121 2-entry
+    tables and 300 drawn 3-entry tables, each with the namespace runner and one drawn container
+    variant.  TLC draws (Randomization, -seed)."""
     return """CONSTANTS
   MaxLen = 3
   ContOpts <- ContOptsMain
@@ -101,7 +102,7 @@ def gen_cfg(ctx):
   NLong = %d
 INIT Init
 NEXT Next
-""" % ctx.pick((1, 6, 18), (2, 0, 420))
+""" % ctx.pick((1, 6, 18), (1, 121, 300))
 
 
 # ---------------------------------------------------------------- strace text -> events
@@ -303,7 +304,7 @@ def run(ctx):
         zero = r2.coverage_zero()
         if zero:
             ctx.note("MC actions never taken: %s" % ",".join(sorted(set(zero))))
-        return "tables<=3 x {fork, cont x 4}: %d states; tables<=2 x {fork, cont x 8} x 2 envs: %d states" % (
+        return "tables<=3 x {fork, cont x 2 option sets}: %d states; tables<=2 x {fork, cont x 8 option sets} x 2 envs: %d states" % (
             r.distinct, r2.distinct)
     mc = Bg(design)
     time.sleep(0.3)
@@ -402,7 +403,7 @@ def run(ctx):
         "the sandboxed program has no capabilities (runner/unshare and the container both drop them), so remount attempts are expected to fail with EPERM",
         "a launch that fails inside the mount block on a table the model can build is counted as a breach (the configured mounts are not provided); failures elsewhere are inconclusive",
         "container: link/mask/devnull options explored as 4 combinations (all 8 in the model); network and ipc namespaces are not unshared by the driver",
-        "thorough real runs: every table of <= 2 entries in every variant, plus a seeded sample of 420 of the 1331 three-entry tables (all of them are model-checked)",
+        "thorough real runs: every table of <= 1 entry in every variant, every 2-entry table and a seeded sample of 300 of the 1331 three-entry tables with the namespace runner and one drawn container variant (all tables are model-checked)",
     ]
     ctx.cov["sandboxes_not_started"] = len(setup)
     if model:
